@@ -1,6 +1,636 @@
-//! C51 — not implemented yet.
-use mc_core::Ctx;
+//! C51 — locked state stays locked forever.
+//!
+//! Explicit-state exploration of transaction histories over small groups of lockable items of every kind
+//! the statement names (object field, key-value entry — collection entry and KV-store entry —, metadata
+//! entry, component royalty setting, owner role) plus resource roles whose updater role is DenyAll.
+//! Every transition is a real transaction on the real engine (manifest instructions for the module
+//! methods, the `Probe` native blueprint for fields / KV entries / "the object's own code").
+//!
+//! Oracle (history invariant, written from the statement, independent of the code): a per-path set
+//! `locked`: an item enters it when a lock action on it is *accepted* (or it was created locked); from then
+//! on (a) the item's stored substate bytes are identical in every later state of the path, and (b) no
+//! mutating attempt on it is accepted — whoever signs (owner badge, other badge, nobody) and whether the
+//! attempt comes from a manifest or from the object's own code.
+use crate::probe::*;
+use mc_core::{bfs, BfsStats, Ctx, Level, Machine};
+use mc_ledger::*;
+use radix_engine::system::system_substates::FieldSubstate;
+use radix_engine_interface::object_modules::metadata::*;
+use radix_engine_interface::object_modules::role_assignment::*;
+use radix_engine_interface::object_modules::royalty::*;
+use radix_substate_store_interface::interface::SubstateDatabaseExtensions;
+use serde_json::json;
+use std::collections::BTreeMap;
 
-pub fn run(_ctx: Ctx) -> ! {
-    mc_core::machinery_error("C51: not implemented")
+#[derive(Clone, Debug)]
+pub struct Item {
+    pub name: String,
+    pub node: NodeId,
+    pub part: PartitionNumber,
+    pub key: SubstateKey,
+    pub pre_locked: bool,
+}
+
+#[derive(Clone)]
+pub enum TxKind {
+    Manifest(TransactionManifestV1),
+    NextRound,
+}
+
+#[derive(Clone)]
+pub struct Action {
+    pub label: String,
+    /// 0 = signed by A (owner badge), 1 = signed by B (other badge), 2 = no signature
+    pub signer: u8,
+    pub tx: TxKind,
+    /// items this action tries to change (indices into the world's item list)
+    pub mutates: Vec<usize>,
+    /// items that are locked when this action is accepted
+    pub locks: Vec<usize>,
+    /// for probe scripts: labels (prefix) of the log entries that are the mutation / lock ops; empty = the receipt decides
+    pub decisive_ops: Vec<String>,
+}
+
+impl std::fmt::Debug for Action {
+    fn fmt(&self, f: &mut std::fmt::Formatter<'_>) -> std::fmt::Result {
+        write!(f, "{}", self.label)
+    }
+}
+
+pub struct World51 {
+    pub snap: Snap,
+    pub a: Acct,
+    pub b: Acct,
+    pub items: Vec<Item>,
+    /// groups: (name, item indices, actions)
+    pub groups: Vec<(String, Vec<usize>, Vec<Action>)>,
+}
+
+fn sval(s: &str) -> Vec<u8> {
+    scrypto_encode(&s.to_string()).unwrap()
+}
+
+fn mb() -> ManifestBuilder {
+    ManifestBuilder::new().lock_fee_from_faucet()
+}
+
+fn run_fn(pkg: PackageAddress, bp: &str, ops: &[Op]) -> TransactionManifestV1 {
+    mb().call_function(pkg, bp, "run", manifest_args!(script_bytes(ops))).build()
+}
+
+fn call_method(c: ComponentAddress, ops: &[Op]) -> TransactionManifestV1 {
+    mb().call_method(c, "call", manifest_args!(script_bytes(ops))).build()
+}
+
+pub fn build_world() -> World51 {
+    let (mut sim, _probe) = new_probe_sim();
+    let (pk_a, _, a_addr) = sim.new_account(true);
+    let (pk_b, _, b_addr) = sim.new_account(true);
+    let a = Acct { pk: pk_a, addr: a_addr, sig: NonFungibleGlobalId::from_public_key(&pk_a) };
+    let b = Acct { pk: pk_b, addr: b_addr, sig: NonFungibleGlobalId::from_public_key(&pk_b) };
+    let pkg_p = sim.publish_native_package(PROBE_P, package_p());
+    let r1 = rule!(require(a.sig.clone()));
+    let r2 = rule!(require_any_of(vec![a.sig.clone(), b.sig.clone()]));
+
+    let new_component = |sim: &mut PSim, bp: &str, pre: Vec<Op>, lock0: bool, cfg: GlobalizeCfg| -> ComponentAddress {
+        let mut ops = vec![Op::NewObject { bp: bp.to_string(), lock0 }];
+        ops.extend(pre);
+        ops.push(Op::Globalize { node: N::Reg(0), reservation: None, cfg });
+        let r = sim.execute_manifest(run_fn(pkg_p, bp, &ops), vec![]);
+        r.expect_commit_success().new_component_addresses()[0]
+    };
+
+    // C1: owner = Updatable(require A); module roles unassigned (owner fallback); royalty attached
+    let mut cfg1 = GlobalizeCfg::simple(OwnerRole::Updatable(r1.clone()));
+    cfg1.royalty = Some(vec![("call".into(), 0, false), ("guarded".into(), 1, false), ("guarded_rs".into(), 1, true)]);
+    let c1 = new_component(&mut sim, BP_A, vec![], false, cfg1);
+
+    // C2: "self-managed": owner = require A but updater = Object; module setter/locker roles = the component itself
+    let mut cfg2 = GlobalizeCfg::simple(OwnerRole::Updatable(r1.clone()));
+    cfg2.owner_updater_object = true;
+    cfg2.royalty = Some(vec![("call".into(), 0, false)]);
+    cfg2.self_caller_metadata_roles = vec![METADATA_SETTER_ROLE.into(), METADATA_LOCKER_ROLE.into()];
+    cfg2.self_caller_royalty_roles = vec![COMPONENT_ROYALTY_SETTER_ROLE.into(), COMPONENT_ROYALTY_LOCKER_ROLE.into()];
+    let c2 = new_component(&mut sim, BP_A, vec![], false, cfg2);
+
+    // C3: everything locked at creation: owner Fixed, field 0 immutable, field 1 locked before globalization
+    let pre3 = vec![Op::CallProbeMethod {
+        recv: N::Reg(0),
+        method: "call".into(),
+        script: vec![Op::OpenField { obj: 0, idx: 1, mutable: true }, Op::FieldWrite(0, Val::Str("pre".into())), Op::FieldLock(0), Op::FieldClose(0)],
+        pass: vec![],
+    }];
+    let c3 = new_component(&mut sim, BP_A, pre3, true, GlobalizeCfg::simple(OwnerRole::Fixed(r1.clone())));
+
+    // C4: field 1 owns a key-value store
+    let pre4 = vec![
+        Op::NewKvStore,
+        Op::CallProbeMethod {
+            recv: N::Reg(0),
+            method: "call".into(),
+            script: vec![Op::OpenField { obj: 0, idx: 1, mutable: true }, Op::FieldWrite(0, Val::Own(N::Arg(0))), Op::FieldClose(0)],
+            pass: vec![Pass::Own(N::Reg(1))],
+        },
+    ];
+    let c4 = new_component(&mut sim, BP_B, pre4, false, GlobalizeCfg::simple(OwnerRole::None));
+    let store: Own = sim
+        .substate_db()
+        .get_substate::<FieldSubstate<Own>>(c4.as_node_id(), MAIN_BASE_PARTITION, SubstateKey::Field(1))
+        .expect("C4 field 1")
+        .into_payload();
+    let store = store.0;
+
+    // resource R: minter/minter_updater = require A (lockable by setting the updater to DenyAll); burner locked at creation
+    let res = {
+        let m = mb()
+            .create_fungible_resource(
+                OwnerRole::Fixed(r1.clone()),
+                true,
+                18,
+                FungibleResourceRoles {
+                    mint_roles: Some(MintRoles { minter: Some(r1.clone()), minter_updater: Some(r1.clone()) }),
+                    burn_roles: Some(BurnRoles { burner: Some(r1.clone()), burner_updater: Some(AccessRule::DenyAll) }),
+                    ..Default::default()
+                },
+                metadata!(),
+                None,
+            )
+            .build();
+        sim.execute_manifest(m, vec![]).expect_commit_success().new_resource_addresses()[0]
+    };
+
+    // ---------------- items
+    let mut items: Vec<Item> = vec![];
+    let mut add = |name: &str, node: NodeId, part: PartitionNumber, key: SubstateKey, pre_locked: bool| -> usize {
+        items.push(Item { name: name.to_string(), node, part, key, pre_locked });
+        items.len() - 1
+    };
+    let md_part = METADATA_BASE_PARTITION;
+    let roy_part = ROYALTY_BASE_PARTITION.at_offset(ROYALTY_CONFIG_PARTITION_OFFSET).unwrap();
+    let owner_part = ROLE_ASSIGNMENT_BASE_PARTITION.at_offset(ROLE_ASSIGNMENT_FIELDS_PARTITION_OFFSET).unwrap();
+    let role_part = ROLE_ASSIGNMENT_BASE_PARTITION.at_offset(ROLE_ASSIGNMENT_ROLE_DEF_PARTITION_OFFSET).unwrap();
+    let coll_part = MAIN_BASE_PARTITION.at_offset(PartitionOffset(1)).unwrap();
+    let map = |s: &str| SubstateKey::Map(sval(s));
+    let role_key = |m: ModuleId, s: &str| SubstateKey::Map(scrypto_encode(&ModuleRoleKey::new(m, s)).unwrap());
+    let n1 = *c1.as_node_id();
+    let n2 = *c2.as_node_id();
+    let n3 = *c3.as_node_id();
+    let i_md = [add("md:C1:k1", n1, md_part, map("k1"), false), add("md:C1:k2", n1, md_part, map("k2"), false)];
+    let i_owner1 = add("owner:C1", n1, owner_part, SubstateKey::Field(0), false);
+    let i_roy = [add("royalty:C1:call", n1, roy_part, map("call"), false), add("royalty:C1:guarded", n1, roy_part, map("guarded"), false)];
+    let i_roy_pre = add("royalty:C1:guarded_rs(pre-locked)", n1, roy_part, map("guarded_rs"), true);
+    let i_field = [add("field:C1:0", n1, MAIN_BASE_PARTITION, SubstateKey::Field(0), false), add("field:C1:1", n1, MAIN_BASE_PARTITION, SubstateKey::Field(1), false)];
+    let i_kv = [add("kv:C1:e1", n1, coll_part, map("e1"), false), add("kv:C1:e2", n1, coll_part, map("e2"), false)];
+    let i_md2 = add("md:C2:k1(self-managed)", n2, md_part, map("k1"), false);
+    let i_owner2 = add("owner:C2(updater=object)", n2, owner_part, SubstateKey::Field(0), false);
+    let i_roy2 = add("royalty:C2:call(self-managed)", n2, roy_part, map("call"), false);
+    let i_owner3 = add("owner:C3(fixed)", n3, owner_part, SubstateKey::Field(0), true);
+    let i_f3 = [add("field:C3:0(immutable)", n3, MAIN_BASE_PARTITION, SubstateKey::Field(0), true), add("field:C3:1(locked-before-globalize)", n3, MAIN_BASE_PARTITION, SubstateKey::Field(1), true)];
+    let i_store = [add("kvstore:C4:s1", store, MAIN_BASE_PARTITION, map("s1"), false), add("kvstore:C4:s2", store, MAIN_BASE_PARTITION, map("s2"), false)];
+    let rn = *res.as_node_id();
+    let i_minter = add("role:R:minter", rn, role_part, role_key(ModuleId::Main, "minter"), false);
+    let i_minter_upd = add("role:R:minter_updater", rn, role_part, role_key(ModuleId::Main, "minter_updater"), false);
+    let i_burner = add("role:R:burner(pre-locked)", rn, role_part, role_key(ModuleId::Main, "burner"), true);
+    let i_burner_upd = add("role:R:burner_updater(pre-locked)", rn, role_part, role_key(ModuleId::Main, "burner_updater"), true);
+
+    // ---------------- actions
+    let act = |label: String, signer: u8, m: TransactionManifestV1, mutates: Vec<usize>, locks: Vec<usize>, decisive: Vec<&str>| Action {
+        label,
+        signer,
+        tx: TxKind::Manifest(m),
+        mutates,
+        locks,
+        decisive_ops: decisive.into_iter().map(|s| s.to_string()).collect(),
+    };
+    let who = ["A", "B", "nobody"];
+    let next_round = Action { label: "next-round".into(), signer: 2, tx: TxKind::NextRound, mutates: vec![], locks: vec![], decisive_ops: vec![] };
+
+    // metadata on C1 (+ owner role of C1)
+    let mut g_md: Vec<Action> = vec![];
+    for s in 0..2u8 {
+        for (ki, k) in ["k1", "k2"].iter().enumerate() {
+            for v in ["v1", "v2"] {
+                g_md.push(act(format!("{}:md-set({k},{v})", who[s as usize]), s, mb().set_metadata(c1, *k, MetadataValue::String(v.into())).build(), vec![i_md[ki]], vec![], vec![]));
+            }
+            g_md.push(act(
+                format!("{}:md-remove({k})", who[s as usize]),
+                s,
+                mb().call_metadata_method(c1, METADATA_REMOVE_IDENT, MetadataRemoveInput { key: k.to_string() }).build(),
+                vec![i_md[ki]],
+                vec![],
+                vec![],
+            ));
+            g_md.push(act(format!("{}:md-lock({k})", who[s as usize]), s, mb().lock_metadata(c1, *k).build(), vec![], vec![i_md[ki]], vec![]));
+        }
+    }
+    let owner_actions = |c: ComponentAddress, item: usize, tag: &str| -> Vec<Action> {
+        let mut v = vec![];
+        for s in 0..2u8 {
+            v.push(act(format!("{}:owner-set({tag},A)", who[s as usize]), s, mb().set_owner_role(c, r1.clone()).build(), vec![item], vec![], vec![]));
+            v.push(act(format!("{}:owner-set({tag},A|B)", who[s as usize]), s, mb().set_owner_role(c, r2.clone()).build(), vec![item], vec![], vec![]));
+            v.push(act(format!("{}:owner-lock({tag})", who[s as usize]), s, mb().lock_owner_role(c).build(), vec![], vec![item], vec![]));
+        }
+        v
+    };
+    let g_owner1 = owner_actions(c1, i_owner1, "C1");
+    let mut g1 = g_md.clone();
+    g1.extend(g_owner1.clone());
+    g1.push(next_round.clone());
+
+    // royalty on C1
+    let mut g_roy: Vec<Action> = vec![];
+    for s in 0..2u8 {
+        for (mi, m) in ["call", "guarded"].iter().enumerate() {
+            g_roy.push(act(format!("{}:royalty-set({m},free)", who[s as usize]), s, mb().set_component_royalty(c1, *m, RoyaltyAmount::Free).build(), vec![i_roy[mi]], vec![], vec![]));
+            g_roy.push(act(format!("{}:royalty-set({m},2xrd)", who[s as usize]), s, mb().set_component_royalty(c1, *m, RoyaltyAmount::Xrd(dec!(2))).build(), vec![i_roy[mi]], vec![], vec![]));
+            g_roy.push(act(format!("{}:royalty-lock({m})", who[s as usize]), s, mb().lock_component_royalty(c1, *m).build(), vec![], vec![i_roy[mi]], vec![]));
+        }
+    }
+    g_roy.push(act("A:royalty-set(guarded_rs,free)".into(), 0, mb().set_component_royalty(c1, "guarded_rs", RoyaltyAmount::Free).build(), vec![i_roy_pre], vec![], vec![]));
+    g_roy.push(act("A:royalty-lock(guarded_rs)".into(), 0, mb().lock_component_royalty(c1, "guarded_rs").build(), vec![], vec![], vec![]));
+    // a paid call of a royalty-bearing method (royalty is charged; the setting must not move)
+    g_roy.push(act("nobody:call-guarded_rs".into(), 2, mb().call_method(c1, "guarded_rs", manifest_args!(script_bytes(&[]))).build(), vec![], vec![], vec![]));
+    g_roy.push(next_round.clone());
+
+    // fields and KV collection entries of C1, through the object's own code
+    let field_actions = |c: ComponentAddress, its: [usize; 2], tag: &str| -> Vec<Action> {
+        let mut v = vec![];
+        for idx in 0..2u8 {
+            for val in ["v1", "v2"] {
+                v.push(act(
+                    format!("code:field-write({tag}.{idx},{val})"),
+                    2,
+                    call_method(c, &[Op::OpenField { obj: 0, idx, mutable: true }, Op::FieldWrite(0, Val::Str(val.into())), Op::FieldClose(0)]),
+                    vec![its[idx as usize]],
+                    vec![],
+                    vec!["FieldWrite"],
+                ));
+            }
+            v.push(act(
+                format!("code:field-lock({tag}.{idx})"),
+                2,
+                call_method(c, &[Op::OpenField { obj: 0, idx, mutable: true }, Op::FieldLock(0), Op::FieldClose(0)]),
+                vec![],
+                vec![its[idx as usize]],
+                vec!["FieldLock"],
+            ));
+        }
+        v
+    };
+    let mut g_state: Vec<Action> = field_actions(c1, i_field, "C1");
+    for (ki, k) in ["e1", "e2"].iter().enumerate() {
+        let open = Op::OpenKvColl { obj: 0, coll: 0, key: k.to_string(), mutable: true };
+        for val in ["v1", "v2"] {
+            g_state.push(act(format!("code:kv-set({k},{val})"), 2, call_method(c1, &[open.clone(), Op::KvSet(0, Val::Str(val.into())), Op::KvClose(0)]), vec![i_kv[ki]], vec![], vec!["KvSet"]));
+        }
+        g_state.push(act(format!("code:kv-remove({k})"), 2, call_method(c1, &[open.clone(), Op::KvRemove(0), Op::KvClose(0)]), vec![i_kv[ki]], vec![], vec!["KvRemove"]));
+        g_state.push(act(
+            format!("code:kv-actor-remove({k})"),
+            2,
+            call_method(c1, &[Op::ActorRemoveKv { obj: 0, coll: 0, key: k.to_string() }]),
+            vec![i_kv[ki]],
+            vec![],
+            vec!["ActorRemoveKv"],
+        ));
+        g_state.push(act(format!("code:kv-lock({k})"), 2, call_method(c1, &[open.clone(), Op::KvLock(0), Op::KvClose(0)]), vec![], vec![i_kv[ki]], vec!["KvLock"]));
+    }
+    g_state.push(next_round.clone());
+
+    // KV store entries of C4
+    let mut g_store: Vec<Action> = vec![];
+    let pre = vec![Op::OpenField { obj: 0, idx: 1, mutable: false }, Op::FieldReadOwn(0)];
+    for (ki, k) in ["s1", "s2"].iter().enumerate() {
+        let with = |ops: Vec<Op>| -> Vec<Op> {
+            let mut v = pre.clone();
+            v.extend(ops);
+            v.push(Op::FieldClose(0));
+            v
+        };
+        let open = Op::OpenKvStore { store: N::Reg(0), key: k.to_string(), mutable: true };
+        for val in ["v1", "v2"] {
+            g_store.push(act(format!("code:store-set({k},{val})"), 2, call_method(c4, &with(vec![open.clone(), Op::KvSet(1, Val::Str(val.into())), Op::KvClose(1)])), vec![i_store[ki]], vec![], vec!["KvSet"]));
+        }
+        g_store.push(act(format!("code:store-remove({k})"), 2, call_method(c4, &with(vec![open.clone(), Op::KvRemove(1), Op::KvClose(1)])), vec![i_store[ki]], vec![], vec!["KvRemove"]));
+        g_store.push(act(
+            format!("code:store-remove-entry({k})"),
+            2,
+            call_method(c4, &with(vec![Op::KvStoreRemove { store: N::Reg(0), key: k.to_string() }])),
+            vec![i_store[ki]],
+            vec![],
+            vec!["KvStoreRemove"],
+        ));
+        g_store.push(act(format!("code:store-lock({k})"), 2, call_method(c4, &with(vec![open.clone(), Op::KvLock(1), Op::KvClose(1)])), vec![], vec![i_store[ki]], vec!["KvLock"]));
+    }
+    g_store.push(next_round.clone());
+
+    // C2: the object's own code drives its modules; A (who satisfies the owner rule) and B try from outside
+    let own_call = |module: AttachedModuleId, method: &str, args: Vec<u8>| -> TransactionManifestV1 {
+        call_method(c2, &[Op::CallRaw { recv: N::Actor(2), module: Some(module), method: method.to_string(), args }])
+    };
+    let mut g_self: Vec<Action> = vec![];
+    for val in ["v1", "v2"] {
+        g_self.push(act(
+            format!("code:md-set(C2.k1,{val})"),
+            2,
+            own_call(AttachedModuleId::Metadata, METADATA_SET_IDENT, scrypto_encode(&MetadataSetInput { key: "k1".into(), value: MetadataValue::String(val.into()) }).unwrap()),
+            vec![i_md2],
+            vec![],
+            vec!["CallRaw"],
+        ));
+    }
+    g_self.push(act("code:md-remove(C2.k1)".into(), 2, own_call(AttachedModuleId::Metadata, METADATA_REMOVE_IDENT, scrypto_encode(&MetadataRemoveInput { key: "k1".into() }).unwrap()), vec![i_md2], vec![], vec!["CallRaw"]));
+    g_self.push(act("code:md-lock(C2.k1)".into(), 2, own_call(AttachedModuleId::Metadata, METADATA_LOCK_IDENT, scrypto_encode(&MetadataLockInput { key: "k1".into() }).unwrap()), vec![], vec![i_md2], vec!["CallRaw"]));
+    g_self.push(act("A:md-set(C2.k1,v1)".into(), 0, mb().set_metadata(c2, "k1", MetadataValue::String("v1".into())).build(), vec![i_md2], vec![], vec![]));
+    for (tag, amt) in [("free", RoyaltyAmount::Free), ("2xrd", RoyaltyAmount::Xrd(dec!(2)))] {
+        g_self.push(act(
+            format!("code:royalty-set(C2.call,{tag})"),
+            2,
+            own_call(AttachedModuleId::Royalty, COMPONENT_ROYALTY_SET_ROYALTY_IDENT, scrypto_encode(&ComponentRoyaltySetInput { method: "call".into(), amount: amt }).unwrap()),
+            vec![i_roy2],
+            vec![],
+            vec!["CallRaw"],
+        ));
+    }
+    g_self.push(act(
+        "code:royalty-lock(C2.call)".into(),
+        2,
+        own_call(AttachedModuleId::Royalty, COMPONENT_ROYALTY_LOCK_ROYALTY_IDENT, scrypto_encode(&ComponentRoyaltyLockInput { method: "call".into() }).unwrap()),
+        vec![],
+        vec![i_roy2],
+        vec!["CallRaw"],
+    ));
+    for (tag, r) in [("A", r1.clone()), ("A|B", r2.clone())] {
+        g_self.push(act(
+            format!("code:owner-set(C2,{tag})"),
+            2,
+            own_call(AttachedModuleId::RoleAssignment, ROLE_ASSIGNMENT_SET_OWNER_IDENT, scrypto_encode(&RoleAssignmentSetOwnerInput { rule: r }).unwrap()),
+            vec![i_owner2],
+            vec![],
+            vec!["CallRaw"],
+        ));
+    }
+    g_self.push(act(
+        "code:owner-lock(C2)".into(),
+        2,
+        own_call(AttachedModuleId::RoleAssignment, ROLE_ASSIGNMENT_LOCK_OWNER_IDENT, scrypto_encode(&RoleAssignmentLockOwnerInput {}).unwrap()),
+        vec![],
+        vec![i_owner2],
+        vec!["CallRaw"],
+    ));
+    g_self.push(act("A:owner-set(C2,A|B)".into(), 0, mb().set_owner_role(c2, r2.clone()).build(), vec![i_owner2], vec![], vec![]));
+    g_self.push(act("A:owner-lock(C2)".into(), 0, mb().lock_owner_role(c2).build(), vec![], vec![i_owner2], vec![]));
+    g_self.push(next_round.clone());
+
+    // C3: created locked
+    let mut g_pre: Vec<Action> = owner_actions(c3, i_owner3, "C3");
+    for a in g_pre.iter_mut() {
+        a.locks.clear(); // already locked; a (rejected) lock attempt changes nothing in the model
+    }
+    g_pre.extend(field_actions(c3, i_f3, "C3").into_iter().map(|mut a| {
+        a.locks.clear();
+        a
+    }));
+    g_pre.push(next_round.clone());
+
+    // resource roles
+    let mut g_res: Vec<Action> = vec![];
+    for s in 0..2u8 {
+        for (tag, r) in [("A", r1.clone()), ("A|B", r2.clone())] {
+            g_res.push(act(format!("{}:role-set(minter,{tag})", who[s as usize]), s, mb().set_role(res, ModuleId::Main, "minter", r.clone()).build(), vec![i_minter], vec![], vec![]));
+        }
+        g_res.push(act(format!("{}:role-set(minter_updater,A|B)", who[s as usize]), s, mb().set_role(res, ModuleId::Main, "minter_updater", r2.clone()).build(), vec![i_minter_upd], vec![], vec![]));
+        g_res.push(act(
+            format!("{}:role-lock(minter_updater:=deny_all)", who[s as usize]),
+            s,
+            mb().set_role(res, ModuleId::Main, "minter_updater", AccessRule::DenyAll).build(),
+            vec![i_minter_upd],
+            vec![i_minter, i_minter_upd],
+            vec![],
+        ));
+    }
+    g_res.push(act("A:role-set(burner,A|B)".into(), 0, mb().set_role(res, ModuleId::Main, "burner", r2.clone()).build(), vec![i_burner], vec![], vec![]));
+    g_res.push(act("A:role-set(burner_updater,A|B)".into(), 0, mb().set_role(res, ModuleId::Main, "burner_updater", r2.clone()).build(), vec![i_burner_upd], vec![], vec![]));
+    g_res.push(act("A:owner-set(R,A|B)".into(), 0, mb().set_owner_role(res, r2.clone()).build(), vec![], vec![], vec![]));
+    g_res.push(next_round.clone());
+
+    // mixed: one item of each kind, owner actions interleaved (owner fallback decides who may lock what)
+    let pick = |g: &[Action], names: &[&str]| -> Vec<Action> { g.iter().filter(|a| names.iter().any(|n| a.label == *n)).cloned().collect() };
+    let mut g_mixed: Vec<Action> = vec![];
+    g_mixed.extend(pick(&g_md, &["A:md-set(k1,v1)", "B:md-set(k1,v2)", "A:md-remove(k1)", "A:md-lock(k1)", "B:md-lock(k1)"]));
+    g_mixed.extend(pick(&g_owner1, &["A:owner-set(C1,A|B)", "A:owner-lock(C1)", "B:owner-set(C1,A)"]));
+    g_mixed.extend(pick(&g_roy, &["A:royalty-set(call,2xrd)", "B:royalty-set(call,free)", "A:royalty-lock(call)", "B:royalty-lock(call)"]));
+    g_mixed.extend(pick(&g_state, &["code:field-write(C1.0,v1)", "code:field-lock(C1.0)", "code:kv-set(e1,v1)", "code:kv-remove(e1)", "code:kv-lock(e1)"]));
+    g_mixed.push(next_round.clone());
+
+    let mixed_items = vec![i_md[0], i_owner1, i_roy[0], i_field[0], i_kv[0]];
+    let groups = vec![
+        ("metadata+owner(C1)".to_string(), vec![i_md[0], i_md[1], i_owner1], g1),
+        ("royalty(C1)".to_string(), vec![i_roy[0], i_roy[1], i_roy_pre], g_roy),
+        ("field+kv-collection(C1)".to_string(), vec![i_field[0], i_field[1], i_kv[0], i_kv[1]], g_state),
+        ("kv-store(C4)".to_string(), vec![i_store[0], i_store[1]], g_store),
+        ("self-managed(C2)".to_string(), vec![i_md2, i_owner2, i_roy2], g_self),
+        ("created-locked(C3)".to_string(), vec![i_owner3, i_f3[0], i_f3[1]], g_pre),
+        ("resource-roles(R)".to_string(), vec![i_minter, i_minter_upd, i_burner, i_burner_upd], g_res),
+        ("mixed(C1)".to_string(), mixed_items, g_mixed),
+    ];
+    World51 { snap: sim.create_snapshot(), a, b, items, groups }
+}
+
+pub struct M51<'a> {
+    pub w: &'a World51,
+    pub group: usize,
+}
+
+pub struct St51 {
+    sim: PSim,
+    probe: Probe,
+    /// item index → stored bytes at the moment it became locked
+    locked: BTreeMap<usize, Option<Vec<u8>>>,
+}
+
+fn read_item<E: NativeVmExtension>(sim: &Sim<E>, it: &Item) -> Option<Vec<u8>> {
+    sim.substate_db().get_raw_substate(it.node, it.part, it.key.clone())
+}
+
+impl<'a> M51<'a> {
+    fn items(&self) -> &Vec<usize> {
+        &self.w.groups[self.group].1
+    }
+}
+
+impl<'a> Machine for M51<'a> {
+    type Op = Action;
+    type St = St51;
+
+    fn init(&self) -> St51 {
+        let (sim, probe) = probe_sim_from(&self.w.snap);
+        let mut locked = BTreeMap::new();
+        for &i in self.items() {
+            if self.w.items[i].pre_locked {
+                locked.insert(i, read_item(&sim, &self.w.items[i]));
+            }
+        }
+        St51 { sim, probe, locked }
+    }
+
+    fn ops(&self, _st: &St51, _depth: usize) -> Vec<Action> {
+        self.w.groups[self.group].2.clone()
+    }
+
+    fn fork(&self, st: &St51) -> Option<St51> {
+        let (sim, probe) = probe_sim_from(&st.sim.create_snapshot());
+        Some(St51 { sim, probe, locked: st.locked.clone() })
+    }
+
+    fn step(&self, st: &mut St51, op: &Action) -> Result<String, (String, String)> {
+        st.probe.take_log();
+        let proofs = match op.signer {
+            0 => vec![self.w.a.sig.clone()],
+            1 => vec![self.w.b.sig.clone()],
+            _ => vec![],
+        };
+        let receipt = match &op.tx {
+            TxKind::Manifest(m) => exec(&mut st.sim, m.clone(), proofs),
+            TxKind::NextRound => mc_core::catch(|| {
+                let r = st.sim.get_consensus_manager_state().round.number();
+                st.sim.advance_to_round(Round::of(r + 1))
+            }),
+        };
+        let receipt = match receipt {
+            Ok(r) => r,
+            Err(p) => return Err((format!("panic@{}", mc_core::last_panic_location()), format!("{} panicked: {p}", op.label))),
+        };
+        let log = st.probe.take_log();
+        let committed = is_success(&receipt);
+        // accepted = the transaction committed successfully and (for probe scripts) the decisive op returned Ok
+        let decisive: Vec<&LogEntry> = log.iter().filter(|e| op.decisive_ops.iter().any(|d| e.op.starts_with(d.as_str()))).collect();
+        let op_ok = decisive.iter().any(|e| e.result.is_ok());
+        let accepted = if op.decisive_ops.is_empty() { committed } else { committed && op_ok };
+        let class_detail = if !op.decisive_ops.is_empty() && !op_ok {
+            decisive.iter().filter_map(|e| e.result.clone().err()).next().or_else(|| log.iter().filter_map(|e| e.result.clone().err()).next()).unwrap_or_else(|| "no-decisive-op".into())
+        } else {
+            receipt_class(&receipt)
+        };
+
+        // (b) a mutating attempt on a locked item must not be accepted (an API-level Ok is enough to count)
+        for &i in &op.mutates {
+            if st.locked.contains_key(&i) && (accepted || (!op.decisive_ops.is_empty() && op_ok)) {
+                return Err((
+                    format!("mutation-accepted:{}", kind_of(&self.w.items[i].name)),
+                    format!("{} was accepted although {} is locked", op.label, self.w.items[i].name),
+                ));
+            }
+        }
+        // (a) stored bytes of every locked item are unchanged
+        for (&i, bytes) in &st.locked {
+            let now = read_item(&st.sim, &self.w.items[i]);
+            if &now != bytes {
+                return Err((
+                    format!("locked-changed:{}", kind_of(&self.w.items[i].name)),
+                    format!(
+                        "stored substate of locked item {} changed after {} ({}): {} -> {}",
+                        self.w.items[i].name,
+                        op.label,
+                        class_detail,
+                        bytes.as_ref().map(|b| mc_core::hex(b)).unwrap_or("-".into()),
+                        now.as_ref().map(|b| mc_core::hex(b)).unwrap_or("-".into())
+                    ),
+                ));
+            }
+        }
+        if accepted {
+            for &i in &op.locks {
+                if self.items().contains(&i) && !st.locked.contains_key(&i) {
+                    let b = read_item(&st.sim, &self.w.items[i]);
+                    st.locked.insert(i, b);
+                }
+            }
+        }
+        let target_locked = op.mutates.iter().chain(op.locks.iter()).any(|i| st.locked.contains_key(i)) && !(accepted && !op.locks.is_empty());
+        let kind = op.label.split('(').next().unwrap_or("").to_string();
+        Ok(format!("{kind}{}:{}", if target_locked { "[target locked]" } else { "" }, if accepted { "accepted".to_string() } else { class_detail }))
+    }
+
+    fn fingerprint(&self, st: &St51) -> Vec<u8> {
+        // the items' stored bytes (entities are created in the root world, so no history-dependent node ids
+        // occur in them) + which items are in the model's locked set
+        let mut fp = vec![];
+        for &i in self.items() {
+            match read_item(&st.sim, &self.w.items[i]) {
+                Some(b) => {
+                    fp.extend((b.len() as u32).to_le_bytes());
+                    fp.extend(b);
+                }
+                None => fp.extend(u32::MAX.to_le_bytes()),
+            }
+            fp.push(st.locked.contains_key(&i) as u8);
+        }
+        fp
+    }
+}
+
+fn kind_of(item_name: &str) -> String {
+    item_name.split(':').next().unwrap_or("").to_string()
+}
+
+pub fn run(ctx: Ctx) -> ! {
+    let w = build_world();
+    if ctx.replay.is_some() {
+        replay(ctx, &w);
+    }
+    // (depth of the per-kind groups, depth of the mixed group, wall cap per group)
+    let (d_kind, d_mixed, cap) = ctx.pick((4usize, 3usize, 40.0), (8, 5, 600.0));
+    let mut total = BfsStats::default();
+    let mut per_group = vec![];
+    for gi in 0..w.groups.len() {
+        let m = M51 { w: &w, group: gi };
+        let depth = if w.groups[gi].0.starts_with("mixed") { d_mixed } else { d_kind };
+        let s = bfs(&ctx, &m, &w.groups[gi].0, depth, 2_000_000, cap);
+        per_group.push(json!({"group": w.groups[gi].0, "items": w.groups[gi].1.iter().map(|i| w.items[*i].name.clone()).collect::<Vec<_>>(), "actions": w.groups[gi].2.len(), "depth": depth, "states": s.states, "transitions": s.transitions, "fixpoint": s.depth_completed == depth && s.per_depth_states.last() == Some(&0), "capped": s.capped}));
+        total.add(&s);
+    }
+    // non-vacuity: locks were accepted and attempts on locked items were seen and rejected
+    let classes = ctx.classes();
+    let accepted_locks = classes.iter().filter(|(k, _)| k.contains("lock") && k.ends_with(":accepted")).count();
+    let rejected_on_locked = classes.iter().filter(|(k, _)| k.contains("[target locked]") && !k.ends_with(":accepted")).map(|(_, n)| *n).sum::<u64>();
+    if !ctx.has_violations() && (accepted_locks < 5 || rejected_on_locked == 0) {
+        mc_core::machinery_error(&format!("C51: vacuous: accepted lock kinds={accepted_locks}, rejected attempts on locked items={rejected_on_locked}"));
+    }
+    let mut cov = total.coverage();
+    cov.insert("groups".into(), json!(per_group));
+    cov.insert("rejected_attempts_on_locked_items".into(), json!(rejected_on_locked));
+    let exhaustive = !total.capped;
+    ctx.finish(
+        Level::ModelChecking,
+        "breadth-first over all histories of set/update/remove/lock transactions (signed by the owner badge holder, by another badge holder, by nobody, or issued by the object's own code) up to the depth, per group of lockable items; every transition is a real transaction; history invariant: after a lock was accepted (or the item was created locked) the stored substate bytes never change and no mutating attempt is accepted; a state is non-trivial when the items' stored bytes + locked set are new",
+        total.states,
+        exhaustive,
+        cov,
+        &[
+            "an item counts as locked from the transaction whose lock action was accepted (same-transaction lock-then-write through one handle is outside the statement's 'later transaction')",
+            "a resource role counts as locked when its updater role was set to DenyAll",
+            "states are merged on the stored bytes of the group's items + the model's locked set (all entities exist in the root world, no history-dependent ids)",
+        ],
+    )
+}
+
+fn replay(ctx: Ctx, w: &World51) -> ! {
+    let case = ctx.read_replay_case().unwrap();
+    let base = case.get("base").and_then(|b| b.as_str()).unwrap_or("").to_string();
+    let hist: Vec<String> = case.get("history").and_then(|h| h.as_array()).map(|a| a.iter().filter_map(|x| x.as_str().map(|s| s.to_string())).collect()).unwrap_or_default();
+    let Some(gi) = w.groups.iter().position(|g| g.0 == base) else { mc_core::machinery_error("replay: unknown group") };
+    let m = M51 { w, group: gi };
+    let mut st = m.init();
+    for label in &hist {
+        let Some(op) = w.groups[gi].2.iter().find(|a| &a.label == label) else { mc_core::machinery_error(&format!("replay: unknown action {label}")) };
+        match m.step(&mut st, op) {
+            Ok(c) => println!("  {label} -> {c}"),
+            Err((k, what)) => {
+                println!("  {label} -> VIOLATION {k}: {what}");
+                ctx.violation(k, what, case.clone());
+                break;
+            }
+        }
+    }
+    ctx.finish(Level::ModelChecking, "replay", 0, false, serde_json::Map::new(), &[])
 }
